@@ -1,10 +1,15 @@
 package main
 
-// C11 — clearsigned control data.
+// C11 — clearsigned control data. NewParagraphReader / NewDecoder (and through
+// them the clear-sign decoder) are interpreted abstractly with the OpenPGP
+// library, the buffered readers and the byte readers replaced by oracles that
+// record WHAT is verified, against WHICH keyring, and WHAT is installed as the
+// text to parse; every oracle outcome is enumerated.
 
 import (
 	"fmt"
-	"regexp"
+	"go/types"
+	"sort"
 	"strings"
 
 	"golang.org/x/tools/go/ssa"
@@ -12,247 +17,394 @@ import (
 
 func init() { register("C11", checkC11) }
 
+func extNamed(p *Prog, pkgPath, name string) *types.Named {
+	for _, pk := range p.SSA.AllPackages() {
+		if pk.Pkg.Path() == pkgPath {
+			if o := pk.Pkg.Scope().Lookup(name); o != nil {
+				n, _ := o.Type().(*types.Named)
+				return n
+			}
+		}
+	}
+	return nil
+}
+
+type c11Outcome struct {
+	errNil     bool
+	readerNil  bool
+	installed  string   // provenance of the reader Next() will parse
+	signer     string   // provenance of the recorded signer ("" = nil)
+	verified   []string // "keyring|signed|signature" per verification call
+	verifyOK   bool
+	decodeCalled bool
+	path       []string
+}
+
 func checkC11(p *Prog, rp *Report) {
-	rp.Explanation = "The clear-sign decoder (the callee of NewParagraphReader that calls clearsign.Decode) is checked on its SSA: C11-CHECKED every nil-error return is either on the keyring==nil side (and only that test) or behind a call of openpgp.CheckDetachedSignature whose keyring argument is the caller's and whose error is tested and returned; C11-SAMEBYTES the verified bytes, the signature and the bytes installed as the new reader come from the same clearsign.Block (same field for verified and parsed bytes, signature from ArmoredSignature.Body), never from the raw input; C11-REPLACED every nil-error return installs the new reader; C11-SIGNER the signer field is written only with the verification call's entity on its nil-error side (and nil at construction), accessors return it unchanged; C11-PROP NewParagraphReader sniffs exactly the length of its prefix literal, passes the keyring on, and returns the decoder's error with no reader; NewDecoder likewise."
-	rp.NotDecided = "everything inside golang.org/x/crypto/openpgp and clearsign (that CheckDetachedSignature only succeeds for a key of the keyring over exactly those bytes; that an empty keyring fails)."
-	rp.Trusted = []string{"go/types, go/ssa", "golang.org/x/crypto/openpgp.CheckDetachedSignature, clearsign.Decode", "bufio, bytes readers"}
+	rp.Explanation = "NewParagraphReader (and NewDecoder, Signer) are interpreted abstractly for plain and for clearsigned input, for a nil keyring, a keyring with a key, an empty keyring and a pointer to a nil key list, with clearsign.Decode (block found / not found), io.ReadAll (ok / error) and openpgp.CheckDetachedSignature (signer / error) replaced by oracles that record their arguments' provenance. C11-CHECKED: with any non-nil keyring pointer, success is only reached through a verification call against that very keyring that returned no error. C11-SAMEBYTES: the bytes verified and the bytes installed for parsing are the same field of the same decoded block, the signature is that block's ArmoredSignature.Body, and the block is decoded from the whole input. C11-REPLACED: after success nothing but those bytes is left to read. C11-SIGNER: the reported signer is the entity the verification returned, and nil for unsigned or unverified input. C11-PROP: a missing block, a read error and a failed verification all make NewParagraphReader / NewDecoder fail without handing out a reader; plain input is passed through untouched with no signer."
+	rp.NotDecided = "everything inside golang.org/x/crypto/openpgp and clearsign (that CheckDetachedSignature succeeds only for a key of the keyring over exactly those bytes; that an empty keyring fails)."
+	rp.Trusted = []string{"go/types, go/ssa", "golang.org/x/crypto/openpgp.CheckDetachedSignature, clearsign.Decode", "bufio / bytes readers deliver the bytes they wrap"}
+
 	npr := p.Func("control", "NewParagraphReader")
-	chk := rp.Rule("C11-CHECKED", "success with a keyring only behind a checked signature verification", 2)
+	chk := rp.Rule("C11-CHECKED", "with a keyring, success only behind a successful verification against that keyring", 3)
+	same := rp.Rule("C11-SAMEBYTES", "verified bytes = parsed bytes = the decoded block's signed text; signature from the same block", 1)
+	repl := rp.Rule("C11-REPLACED", "after success only the verified text is left to read", 1)
+	sgn := rp.Rule("C11-SIGNER", "the reported signer is the verified signing entity, nil otherwise", 3)
+	prop := rp.Rule("C11-PROP", "failures fail closed; plain input passes through", 2)
 	if npr == nil {
 		chk.bad("control.NewParagraphReader", "", "function not found", nil)
 		return
 	}
-	var dec *ssa.Function
-	for _, f := range reachableRepoFuncs(npr) {
-		if len(callsNamed(f, "golang.org/x/crypto/openpgp/clearsign.Decode")) > 0 {
-			dec = f
-		}
-	}
-	if dec == nil {
-		chk.bad("control.clearsign-decoder", p.Pos(npr.Pos()), "no function reachable from NewParagraphReader calls clearsign.Decode", nil)
+	pos := p.Pos(npr.Pos())
+	blockT := extNamed(p, "golang.org/x/crypto/openpgp/clearsign", "Block")
+	armorT := extNamed(p, "golang.org/x/crypto/openpgp/armor", "Block")
+	prT := p.Named("control", "ParagraphReader")
+	if blockT == nil || armorT == nil || prT == nil {
+		chk.undecided("control.NewParagraphReader", pos, "clearsign.Block / armor.Block / ParagraphReader types not found")
 		return
 	}
-	pos := p.Pos(dec.Pos())
-	name := fname(dec)
-	tm := newTermer()
-	// keyring parameter of the decoder
-	kr := ""
-	for i, prm := range dec.Params {
-		if strings.Contains(prm.Type().String(), "openpgp.EntityList") {
-			kr = fmt.Sprintf("p%d", i)
-		}
-	}
-	verifs := callsNamed(dec, "golang.org/x/crypto/openpgp.CheckDetachedSignature", "golang.org/x/crypto/openpgp.CheckArmoredDetachedSignature")
-	if kr == "" || len(verifs) != 1 {
-		chk.bad(name, pos, fmt.Sprintf("keyring parameter %q, %d verification calls (expected one)", kr, len(verifs)), nil)
-		return
-	}
-	vc := verifs[0]
-	vt := tm.term(vc)
-	chk.check(tm.term(vc.Call.Args[0]) == kr, name+":keyring", p.Pos(vc.Pos()), "the caller's keyring is what the signature is checked against", "the verification uses "+tm.term(vc.Call.Args[0])+" instead of the caller's keyring")
-	// the error guard
-	var errGuard *guard
-	gs := guardsOf(dec)
-	for i, g := range gs {
-		if g.Term == "(nil != "+vt+"#1)" && rejectsOn(dec, g, 0) {
-			errGuard = &gs[i]
-		}
-		if g.Term == "(nil == "+vt+"#1)" && rejectsOn(dec, g, 1) {
-			errGuard = &gs[i]
-		}
-	}
-	// the bypass guard
-	var bypass *ssa.BasicBlock
-	for _, g := range gs {
-		if g.Term == "(nil == "+kr+")" {
-			bypass = g.If.Block().Succs[0]
-		}
-		if g.Term == "(nil != "+kr+")" {
-			bypass = g.If.Block().Succs[1]
-		}
-	}
-	rets := successReturns(dec)
-	if len(rets) == 0 {
-		chk.bad(name, pos, "the decoder has no success path", nil)
-	}
-	for i, r := range rets {
-		key := fmt.Sprintf("%s:success-path-%d", name, i+1)
-		b := r.Block()
-		viaBypass := bypass != nil && len(bypass.Preds) == 1 && bypass.Dominates(b)
-		viaCheck := false
-		if errGuard != nil {
-			_, side, _ := nilTest(errGuard.If.Cond)
-			okSide := errGuard.If.Block().Succs[1-side]
-			viaCheck = len(okSide.Preds) == 1 && okSide.Dominates(b)
-		}
-		switch {
-		case viaCheck:
-			chk.ok(key, p.Pos(r.Pos()), "behind the verification call, on the side where its error is nil")
-		case viaBypass:
-			chk.ok(key, p.Pos(r.Pos()), "only reachable when the keyring parameter itself is nil (documented: no checking requested)")
-		default:
-			chk.bad(key, p.Pos(r.Pos()), "this success return is reachable with a non-nil keyring without a successful signature check (the only permitted bypass is the test keyring == nil)", nil)
-		}
-	}
-
-	// C11-SAMEBYTES
-	sb := rp.Rule("C11-SAMEBYTES", "verified bytes, signature and parsed bytes come from the same clearsign block", 3)
-	blockRe := regexp.MustCompile(`^bytes\.(?:NewReader|NewBuffer)\((openpgp/clearsign\.Decode\(.*\)#0)\.(Bytes|Plaintext)\)$`)
-	signed := tm.term(stripIface(vc.Call.Args[1]))
-	sm := blockRe.FindStringSubmatch(signed)
-	if sm == nil {
-		sb.bad(name+":signed-data", p.Pos(vc.Pos()), "the signed data is "+signed+", not the bytes of the decoded clearsign block", nil)
-	} else {
-		sb.ok(name+":signed-data", p.Pos(vc.Pos()), "signed data = block."+sm[2])
-		sig := tm.term(stripIface(vc.Call.Args[2]))
-		sb.check(sig == sm[1]+".ArmoredSignature.Body", name+":signature", p.Pos(vc.Pos()), "signature = the same block's ArmoredSignature.Body", "the signature is "+sig)
-		// the decoded input must be the reader's content
-		sb.check(regexp.MustCompile(`^openpgp/clearsign\.Decode\(io(?:/ioutil)?\.ReadAll\(p0\.reader\)#0\)#0$`).MatchString(sm[1]), name+":decoded-input", pos, "the block is decoded from everything the reader holds", "the clearsign block is decoded from "+sm[1])
-		// installed readers
-		n := 0
-		for _, b := range dec.Blocks {
-			for _, ins := range b.Instrs {
-				st, ok := ins.(*ssa.Store)
-				if !ok || tm.term(st.Addr) != "&p0.reader" {
-					continue
+	ifT := types.NewPointer(types.Typ[types.Int])
+	// provenance of a value
+	var prov func(st *State, v Val) string
+	prov = func(st *State, v Val) string {
+		switch x := v.(type) {
+		case nilV:
+			return "nil"
+		case OpaqueV:
+			return x.Name
+		case IfaceV:
+			return prov(st, x.V)
+		case Ptr:
+			if o, ok := st.Heap[x.Obj]; ok {
+				if ov, ok := o.V.(OpaqueV); ok {
+					return ov.Name
 				}
-				n++
-				v := tm.term(st.Val)
-				want := regexp.MustCompile(`^bufio\.NewReader\(bytes\.(?:NewReader|NewBuffer)\(` + regexp.QuoteMeta(sm[1]) + `\.` + sm[2] + `\)\)$`)
-				sb.check(want.MatchString(v), fmt.Sprintf("%s:installed-reader-%d", name, n), p.Pos(st.Pos()), "the reader that Next will parse holds exactly the verified bytes (block."+sm[2]+")", "the installed reader is "+v+": text other than the verified bytes can reach the caller")
+			}
+			return fmt.Sprintf("obj%d", x.Obj)
+		case string:
+			return fmt.Sprintf("%q", x)
+		}
+		return fmt.Sprintf("%T", v)
+	}
+	type scenario struct {
+		name      string
+		signed    bool
+		keyring   string // nil | keys | empty | nil-list
+		readOK    bool
+		blockOK   bool
+		verifyOK  bool
+	}
+	runScenario := func(sc scenario, entry *ssa.Function) (*c11Outcome, string) {
+		m := NewMachine(p, nil)
+		installStringModels(m)
+		installIOGlobals(m)
+		out := &c11Outcome{verifyOK: sc.verifyOK}
+		wrap := func(name string) HookFn {
+			return func(m *Machine, st *State, call *ssa.CallCommon, args []Val) ([]Val, bool) {
+				id := st.alloc(types.Typ[types.Int], OpaqueV{name + "(" + prov(st, args[0]) + ")"})
+				return []Val{Ptr{Obj: id}}, true
 			}
 		}
-		if n == 0 {
-			sb.bad(name+":installed-reader", pos, "the decoder never replaces the reader", nil)
-		}
-	}
-
-	// C11-REPLACED
-	rpl := rp.Rule("C11-REPLACED", "every success path installs the new reader", 1)
-	through := map[*ssa.BasicBlock]bool{}
-	for _, b := range dec.Blocks {
-		for _, ins := range b.Instrs {
-			if st, ok := ins.(*ssa.Store); ok && tm.term(st.Addr) == "&p0.reader" {
-				through[b] = true
+		for _, n := range []string{"bufio.NewReader", "bytes.NewReader", "bytes.NewBuffer", "bytes.NewBufferString", "strings.NewReader"} {
+			short := "reader"
+			if strings.HasPrefix(n, "bufio") {
+				short = "bufio"
 			}
+			m.Hooks[n] = wrap(short)
 		}
-	}
-	okR := len(rets) > 0
-	for _, r := range rets {
-		if !everyPathPasses(dec, through, r.Block()) {
-			okR = false
+		m.Hooks["bufio.NewReaderSize"] = wrap("bufio")
+		content := "Source: plain-control-data\n"
+		if sc.signed {
+			content = "-----BEGIN PGP SIGNED MESSAGE-----\nHash: SHA256\n\nSource: x\n"
 		}
-	}
-	rpl.check(okR, name, pos, "every nil-error return passes a store of the new reader", "a success path leaves the original stream (including text outside the signed block) in place")
-
-	// C11-SIGNER
-	sg := rp.Rule("C11-SIGNER", "the signer is only ever the verified signing entity", 3)
-	nstores := 0
-	for _, fn := range p.SrcFuncs("control") {
-		ft := newTermer()
-		for _, b := range fn.Blocks {
-			for _, ins := range b.Instrs {
-				st, ok := ins.(*ssa.Store)
-				if !ok {
-					continue
+		m.Hooks["(*bufio.Reader).Peek"] = func(m *Machine, st *State, call *ssa.CallCommon, args []Val) ([]Val, bool) {
+			n, ok := args[1].(int64)
+			if !ok {
+				return nil, false
+			}
+			k := int(n)
+			var e Val = nilV{}
+			if k > len(content) {
+				k = len(content)
+				e = eofVal
+			}
+			arr := &ArrayV{}
+			for i := 0; i < k; i++ {
+				arr.E = append(arr.E, int64(content[i]))
+			}
+			id := st.alloc(types.NewArray(types.Typ[types.Uint8], int64(k)), arr)
+			return []Val{&TupleV{E: []Val{SliceV{Obj: id, Len_: k, Cap: k}, e}}}, true
+		}
+		readAll := func(m *Machine, st *State, call *ssa.CallCommon, args []Val) ([]Val, bool) {
+			if !sc.readOK {
+				return []Val{&TupleV{E: []Val{nilV{}, IfaceV{T: errType, V: "read error"}}}}, true
+			}
+			return []Val{&TupleV{E: []Val{OpaqueV{"all-of(" + prov(st, args[0]) + ")"}, nilV{}}}}, true
+		}
+		m.Hooks["io/ioutil.ReadAll"] = readAll
+		m.Hooks["io.ReadAll"] = readAll
+		m.Hooks["golang.org/x/crypto/openpgp/clearsign.Decode"] = func(m *Machine, st *State, call *ssa.CallCommon, args []Val) ([]Val, bool) {
+			out.decodeCalled = true
+			src := prov(st, args[0])
+			if !sc.blockOK {
+				return []Val{&TupleV{E: []Val{nilV{}, OpaqueV{"rest-of(" + src + ")"}}}}, true
+			}
+			sig := st.alloc(types.Typ[types.Int], OpaqueV{"signature-body[" + src + "]"})
+			aid := st.alloc(armorT, mkStruct(armorT, map[string]Val{"Type": "PGP SIGNATURE", "Body": IfaceV{T: ifT, V: Ptr{Obj: sig}}}))
+			bid := st.alloc(blockT, mkStruct(blockT, map[string]Val{
+				"Plaintext":        OpaqueV{"block.Plaintext[" + src + "]"},
+				"Bytes":            OpaqueV{"block.Bytes[" + src + "]"},
+				"ArmoredSignature": Ptr{Obj: aid},
+			}))
+			return []Val{&TupleV{E: []Val{Ptr{Obj: bid}, OpaqueV{"rest-of(" + src + ")"}}}}, true
+		}
+		verify := func(m *Machine, st *State, call *ssa.CallCommon, args []Val) ([]Val, bool) {
+			out.verified = append(out.verified, prov(st, args[0])+"|"+prov(st, args[1])+"|"+prov(st, args[2]))
+			if !sc.verifyOK {
+				return []Val{&TupleV{E: []Val{nilV{}, IfaceV{T: errType, V: "signature made by unknown entity"}}}}, true
+			}
+			id := st.alloc(types.Typ[types.Int], OpaqueV{"the-signing-entity"})
+			return []Val{&TupleV{E: []Val{Ptr{Obj: id}, nilV{}}}}, true
+		}
+		m.Hooks["golang.org/x/crypto/openpgp.CheckDetachedSignature"] = verify
+		m.Hooks["golang.org/x/crypto/openpgp.CheckArmoredDetachedSignature"] = verify
+		st := initState(m, "control")
+		src := st.alloc(types.Typ[types.Int], OpaqueV{"the-input"})
+		var kr Val = nilV{}
+		switch sc.keyring {
+		case "keys":
+			e := st.alloc(types.Typ[types.Int], OpaqueV{"a-key"})
+			arr := st.alloc(types.NewArray(ifT, 1), &ArrayV{E: []Val{Ptr{Obj: e}}})
+			kr = Ptr{Obj: st.alloc(types.NewSlice(ifT), SliceV{Obj: arr, Len_: 1, Cap: 1})}
+		case "empty":
+			arr := st.alloc(types.NewArray(ifT, 0), &ArrayV{})
+			kr = Ptr{Obj: st.alloc(types.NewSlice(ifT), SliceV{Obj: arr, Len_: 0, Cap: 0})}
+		case "nil-list":
+			kr = Ptr{Obj: st.alloc(types.NewSlice(ifT), nilV{})}
+		}
+		krName := prov(st, kr)
+		st.push(entry, []Val{IfaceV{T: ifT, V: Ptr{Obj: src}}, kr}, nil)
+		res := m.Run(st)
+		if len(res) != 1 {
+			return nil, fmt.Sprintf("%d runs (an undetermined branch): %v", len(res), keys(res[0].Notes))
+		}
+		if res[0].Status != stRet {
+			return nil, retDesc(res)
+		}
+		tv, ok := st.Ret.(*TupleV)
+		if !ok || len(tv.E) != 2 {
+			return nil, "unexpected result shape"
+		}
+		_, out.errNil = tv.E[1].(nilV)
+		_, out.readerNil = tv.E[0].(nilV)
+		if !out.readerNil {
+			// find the ParagraphReader inside the result (directly, or inside a Decoder)
+			var find func(v Val, depth int) *StructV
+			find = func(v Val, depth int) *StructV {
+				if depth > 3 {
+					return nil
 				}
-				a := ft.term(st.Addr)
-				if !strings.HasSuffix(a, ".signer") {
-					continue
-				}
-				nstores++
-				key := fmt.Sprintf("%s:signer-store", fname(fn))
-				switch {
-				case isNilConst(st.Val):
-					sg.ok(key, p.Pos(st.Pos()), "initialised to nil")
-				case fn == dec && ft.term(st.Val) == tm.term(vc)+"#0":
-					okDom := false
-					if errGuard != nil {
-						_, side, _ := nilTest(errGuard.If.Cond)
-						okSide := errGuard.If.Block().Succs[1-side]
-						okDom = len(okSide.Preds) == 1 && okSide.Dominates(b)
+				switch x := v.(type) {
+				case Ptr:
+					lv, _ := st.load(x)
+					return find(lv, depth+1)
+				case *StructV:
+					if len(x.F) == structOf(prT).NumFields() {
+						if _, isP := x.F[fieldIndex(structOf(prT), "reader")].(Ptr); isP {
+							return x
+						}
 					}
-					sg.check(okDom, key, p.Pos(st.Pos()), "the entity returned by the verification call, stored on its nil-error side", "the signer is recorded without the verification having succeeded")
-				default:
-					sg.bad(key, p.Pos(st.Pos()), "the signer is set to "+ft.term(st.Val)+", which is not the verified signing entity", nil)
+					for _, f := range x.F {
+						if r := find(f, depth+1); r != nil {
+							return r
+						}
+					}
 				}
+				return nil
+			}
+			pr := find(tv.E[0], 0)
+			if pr == nil {
+				return nil, "no ParagraphReader in the result"
+			}
+			out.installed = prov(st, pr.F[fieldIndex(structOf(prT), "reader")])
+			if s := prov(st, pr.F[fieldIndex(structOf(prT), "signer")]); s != "nil" {
+				out.signer = s
+			}
+		}
+		// normalise keyring provenance in the verification records
+		for i, v := range out.verified {
+			out.verified[i] = strings.Replace(v, krName+"|", "KEYRING|", 1)
+		}
+		return out, ""
+	}
+
+	var chkP, sameP, replP, sgnP, propP []string
+	undec := ""
+	nscen := 0
+	for _, entryName := range []string{"NewParagraphReader", "NewDecoder"} {
+		entry := p.Func("control", entryName)
+		if entry == nil {
+			propP = append(propP, "control."+entryName+" not found")
+			continue
+		}
+		for _, keyring := range []string{"nil", "keys", "empty", "nil-list"} {
+			for _, sc := range []scenario{
+				{"plain input", false, keyring, true, true, true},
+				{"signed, verifies", true, keyring, true, true, true},
+				{"signed, verification fails", true, keyring, true, true, false},
+				{"signed, no block decodes", true, keyring, true, false, true},
+				{"signed, read error", true, keyring, false, true, true},
+			} {
+				nscen++
+				o, why := runScenario(sc, entry)
+				desc := fmt.Sprintf("%s(%s; keyring: %s)", entryName, sc.name, keyring)
+				if why != "" {
+					undec = desc + ": " + why
+					break
+				}
+				hasKeyring := keyring != "nil"
+				success := o.errNil
+				if !success && !o.readerNil {
+					propP = append(propP, desc+": a reader is handed out together with the error")
+				}
+				if !sc.signed {
+					if !success || o.decodeCalled || o.signer != "" || o.installed != "bufio(the-input)" {
+						propP = append(propP, fmt.Sprintf("%s: plain input must pass through untouched with no signer (success=%v, reads from %s, signer %q)", desc, success, o.installed, o.signer))
+					}
+					continue
+				}
+				if !sc.readOK || !sc.blockOK {
+					if success {
+						propP = append(propP, desc+": succeeds although "+map[bool]string{true: "no clearsigned block was found", false: "the input could not be read"}[sc.readOK])
+					}
+					continue
+				}
+				// signed input with a decodable block
+				if hasKeyring {
+					verifiedOK := false
+					for _, v := range o.verified {
+						if strings.HasPrefix(v, "KEYRING|") {
+							verifiedOK = true
+						}
+					}
+					if success && (!verifiedOK || !sc.verifyOK) {
+						chkP = append(chkP, fmt.Sprintf("%s: reading succeeds although %s", desc, map[bool]string{true: "no verification against the caller's keyring took place (verification calls: " + fmt.Sprint(o.verified) + ")", false: "the signature did not verify"}[sc.verifyOK]))
+					}
+					if !success && sc.verifyOK && verifiedOK {
+						propP = append(propP, desc+": fails although the signature verified")
+					}
+					if success {
+						for _, v := range o.verified {
+							parts := strings.Split(v, "|")
+							signed, sig := parts[1], parts[2]
+							want := ""
+							for _, f := range []string{"Bytes", "Plaintext"} {
+								if signed == "reader(block."+f+"[all-of(bufio(the-input))])" {
+									want = "bufio(reader(block." + f + "[all-of(bufio(the-input))]))"
+								}
+							}
+							if want == "" {
+								sameP = append(sameP, fmt.Sprintf("%s: the data verified is %s, not the signed text of the block decoded from the whole input", desc, signed))
+							} else if o.installed != want {
+								sameP = append(sameP, fmt.Sprintf("%s: verified %s but the text handed to the parser is %s", desc, signed, o.installed))
+							}
+							if sig != "signature-body[all-of(bufio(the-input))]" {
+								sameP = append(sameP, fmt.Sprintf("%s: the signature checked is %s, not the block's own ArmoredSignature.Body", desc, sig))
+							}
+						}
+						if o.signer != "the-signing-entity" {
+							sgnP = append(sgnP, fmt.Sprintf("%s: the reported signer is %q, not the entity returned by the verification", desc, o.signer))
+						}
+					}
+				} else {
+					if !success {
+						propP = append(propP, desc+": with a nil keyring (checking disabled by the caller) reading fails")
+					} else {
+						if o.signer != "" {
+							sgnP = append(sgnP, desc+": a signer is reported although nothing was verified")
+						}
+						if !strings.HasPrefix(o.installed, "bufio(reader(block.") {
+							replP = append(replP, fmt.Sprintf("%s: the text handed to the parser is %s, not the decoded block's text", desc, o.installed))
+						}
+					}
+				}
+				if success && strings.Contains(o.installed, "the-input") && !strings.Contains(o.installed, "block.") {
+					replP = append(replP, fmt.Sprintf("%s: after success the parser still reads the raw input (%s): text outside the signed block reaches the caller", desc, o.installed))
+				}
+				if success && (strings.Contains(o.installed, "rest-of") || strings.Count(o.installed, "block.") != 1) {
+					replP = append(replP, fmt.Sprintf("%s: the text handed to the parser is %s: more than the one verified block", desc, o.installed))
+				}
+			}
+			if undec != "" {
+				break
 			}
 		}
 	}
-	for _, acc := range []struct{ typ, want string }{{"ParagraphReader", "p0.signer"}, {"Decoder", "(*control.ParagraphReader).Signer(&p0.paragraphReader)"}} {
+	rp.Extra["scenarios"] = nscen
+	if undec != "" {
+		for _, r := range []*Rule{chk, same, repl, sgn, prop} {
+			r.undecided("control.NewParagraphReader", pos, undec)
+		}
+		return
+	}
+	sort.Strings(chkP)
+	fillProblems(chk, "control.NewParagraphReader", pos, chkP, fmt.Sprintf("%d scenarios (2 entry points x 4 keyrings x 5 input/oracle outcomes): success with a keyring pointer only after a successful check against it", nscen))
+	fillProblems(chk, "control.NewParagraphReader:nil-list-keyring", pos, filter(chkP, "nil-list"), "a pointer to a nil key list is a keyring: verification is not skipped")
+	fillProblems(chk, "control.NewParagraphReader:empty-keyring", pos, filter(chkP, "keyring: empty"), "an empty keyring is a keyring: verification is not skipped")
+	fillProblems(same, "control.clearsign-decoder", pos, sameP, "verified bytes, signature and installed reader all come from the one block decoded from the whole input")
+	fillProblems(repl, "control.clearsign-decoder", pos, replP, "after success the reader holds exactly the block's text")
+	fillProblems(sgn, "control.ParagraphReader.signer", pos, sgnP, "signer = the verified entity; nil for plain input and for a nil keyring")
+	fillProblems(prop, "control.NewParagraphReader/NewDecoder", pos, propP, "read errors, missing blocks and failed verifications fail without a reader; plain input passes through")
+	// Signer accessors return the field unchanged
+	for _, acc := range []struct{ typ string }{{"ParagraphReader"}, {"Decoder"}} {
 		fn := p.Method("control", acc.typ, "Signer")
 		key := "control." + acc.typ + ".Signer"
 		if fn == nil {
-			sg.bad(key, "", "accessor not found", nil)
+			sgn.bad(key, "", "accessor not found", nil)
 			continue
 		}
-		ft := newTermer()
-		ok := true
-		got := ""
-		for _, r := range returnsReachable(fn.Blocks[0]) {
-			got = ft.term(r.Results[0])
-			if got != acc.want {
-				ok = false
-			}
-		}
-		sg.check(ok, key, p.Pos(fn.Pos()), "returns the recorded signer unchanged", "returns "+got)
-	}
-
-	// C11-PROP
-	pr := rp.Rule("C11-PROP", "entry points sniff, delegate and propagate correctly", 4)
-	{
-		nt := newTermer()
-		sniffOK := false
-		sniff := ""
-		for _, g := range guardsOf(npr) {
-			m := regexp.MustCompile(`^\("((?:[^"\\]|\\.)*)" (!=|==) \(\*bufio\.Reader\)\.Peek\(bufio\.NewReader\(p0\),(\d+)\)#0\)$`).FindStringSubmatch(g.Term)
-			if m != nil {
-				sniff = g.Term
-				if fmt.Sprint(len(m[1])) == m[3] && m[1] == "-----BEGIN PGP " {
-					sniffOK = true
+		m := NewMachine(p, nil)
+		st := initState(m, "control")
+		sid := st.alloc(types.Typ[types.Int], OpaqueV{"the-signer"})
+		prv := mkStruct(prT, map[string]Val{"signer": Ptr{Obj: sid}})
+		var recv Val
+		if acc.typ == "ParagraphReader" {
+			recv = Ptr{Obj: st.alloc(prT, prv)}
+		} else {
+			dT := p.Named("control", "Decoder")
+			dv := zeroVal(dT).(*StructV)
+			for i := 0; i < structOf(dT).NumFields(); i++ {
+				if types.Identical(structOf(dT).Field(i).Type(), prT) {
+					dv.F[i] = prv
+				} else if pt, ok := structOf(dT).Field(i).Type().(*types.Pointer); ok && types.Identical(pt.Elem(), prT) {
+					dv.F[i] = Ptr{Obj: st.alloc(prT, prv)}
 				}
 			}
+			recv = Ptr{Obj: st.alloc(dT, dv)}
 		}
-		pr.check(sniffOK, "control.NewParagraphReader:sniff", p.Pos(npr.Pos()), "peeks exactly len(\"-----BEGIN PGP \") = 15 bytes and compares them with that literal", "clearsigned input is recognised by "+sniff+" (peek length and literal must agree)")
-		dc := callsNamed(npr, dec.String())
-		okCall := len(dc) == 1 && nt.term(dc[0].Call.Args[len(dc[0].Call.Args)-1]) == "p1"
-		pr.check(okCall, "control.NewParagraphReader:keyring", p.Pos(npr.Pos()), "the keyring is passed to the decoder unchanged", "the decoder is not called with the caller's keyring")
-		okErr := false
-		for _, s := range errDiscipline(npr, func(n string, c *ssa.Call) bool { return c.Call.StaticCallee() == dec }) {
-			if s.Status == "checked" || s.Status == "returned" {
-				okErr = true
-			}
-		}
-		// on the error path the reader result must be nil
-		nilOnErr := true
-		for _, r := range returnsReachable(npr.Blocks[0]) {
-			if errStatus(r.Results[1], knownNonNilAt(r.Block()), 0) != "nil" && !isNilConst(r.Results[0]) {
-				nilOnErr = false
-			}
-		}
-		pr.check(okErr && nilOnErr, "control.NewParagraphReader:error", p.Pos(npr.Pos()), "a decoder error is returned and no reader is handed out", "a failed signature check does not stop NewParagraphReader from returning a reader")
+		st.push(fn, []Val{recv}, nil)
+		out := m.Run(st)
+		ok := len(out) == 1 && out[0].Status == stRet && st.Ret == (Ptr{Obj: sid})
+		sgn.check(ok, key, p.Pos(fn.Pos()), "returns the recorded signer unchanged", "does not return the recorded signer: "+retDesc(out))
 	}
-	if nd := p.Func("control", "NewDecoder"); nd != nil {
-		nt := newTermer()
-		calls := callsNamed(nd, npr.String())
-		okArgs := len(calls) == 1 && nt.term(calls[0].Call.Args[0]) == "p0" && nt.term(calls[0].Call.Args[1]) == "p1"
-		okErr := false
-		for _, s := range errDiscipline(nd, func(n string, c *ssa.Call) bool { return c.Call.StaticCallee() == npr }) {
-			if s.Status == "checked" || s.Status == "returned" {
-				okErr = true
-			}
-		}
-		pr.check(okArgs && okErr, "control.NewDecoder", p.Pos(nd.Pos()), "delegates to NewParagraphReader(reader, keyring) and returns its error", "NewDecoder does not hand reader and keyring to NewParagraphReader or drops its error")
-	} else {
-		pr.bad("control.NewDecoder", "", "function not found", nil)
-	}
-	// Unmarshal uses a nil keyring by design (documented): record it
+	// Unmarshal is unverified by design: it must pass a nil keyring
 	if um := p.Func("control", "Unmarshal"); um != nil {
-		nt := newTermer()
+		okNil := false
 		for _, c := range allCalls(um) {
-			if callee := c.Common().StaticCallee(); callee != nil && callee.Name() == "NewDecoder" {
-				pr.ok("control.Unmarshal", p.Pos(um.Pos()), "Unmarshal = NewDecoder("+nt.term(c.Common().Args[0])+", "+nt.term(c.Common().Args[1])+"): unverified by design, never reports a signer")
+			if callee := c.Common().StaticCallee(); callee != nil && (callee.Name() == "NewDecoder" || callee.Name() == "NewParagraphReader") {
+				okNil = isNilConst(c.Common().Args[1])
 			}
 		}
+		prop.check(okNil, "control.Unmarshal", p.Pos(um.Pos()), "Unmarshal reads without a keyring (documented: unverified, never reports a signer)", "Unmarshal does not call NewDecoder with a nil keyring")
 	}
+}
+
+func filter(xs []string, sub string) []string {
+	var out []string
+	for _, x := range xs {
+		if strings.Contains(x, sub) {
+			out = append(out, x)
+		}
+	}
+	return out
 }
